@@ -128,7 +128,17 @@ def uninterrupted(variant, shapes, T, seed, eager):
   return box, grads, sb, ub, td
 
 
-def run_schedule(variant, shapes, T, seed, eager, sched, first, grads, sb, ub, td, stats):
+def _corrupt(state):
+  """Binding self-test helper: perturb one tensor of a restored state by one part in a thousand."""
+  leaves, tdef = jax.tree.flatten(state)
+  for i, x in enumerate(leaves):
+    if x.dtype == jnp.float32 and x.size > 0 and float(jnp.abs(x).max()) > 0:
+      leaves[i] = x * jnp.float32(1.001)
+      break
+  return jax.tree.unflatten(tdef, leaves)
+
+
+def run_schedule(variant, shapes, T, seed, eager, sched, first, grads, sb, ub, td, stats, corrupt=False):
   """first: the optimizer object of the uninterrupted run (its compiled program is reused for the
   segment before the first crash; every CrashRestore builds a new object)."""
   mism, events = [], []
@@ -158,6 +168,8 @@ def run_schedule(variant, shapes, T, seed, eager, sched, first, grads, sb, ub, t
     elif act["a"] == "crash":
       box = Box(variant, shapes, seed, eager)       # everything outside the state pytree is lost
       tdef = box.restore(disk)
+      if corrupt:
+        box.state = _corrupt(box.state)
       stats["restores"] += 1
       count = disk_count
       ev["tref"] = (tdef == td[count])
@@ -198,7 +210,8 @@ def handle(job):
       stats = {"restores": 0}
       results = []
       for sched in job["schedules"]:
-        mism, events = run_schedule(variant, shapes, T, seed, eager, sched, first, grads, sb, ub, td, stats)
+        mism, events = run_schedule(variant, shapes, T, seed, eager, sched, first, grads, sb, ub, td, stats,
+                                    corrupt=job.get("corrupt_restore", False))
         results.append({"mismatches": mism, "events": events})
       return {"error": None, "results": results, "restores": stats["restores"],
               "state_bytes": len(sb[-1]), "treedef": str(td[-1])[:400]}
